@@ -72,6 +72,19 @@ reg("C17", "exploration",
     "DESIGN.md section 3, C17")
 
 
+reg("C08", "fault_enumeration",
+    "Fault enumeration, complete for its stated space: every tuple (error-status in {1..18, 19, 20, 127, 128, 255, 256, 2^31-1, "
+    "-1, -128, -2^31}) x (binding count n 0..6) x (error-index 0..n+3) x (12 operations) x (failing request = first / a "
+    "continuation request of a walk) is answered by a scripted agent for v2c on every run (thorough: also v1, the three "
+    "SNMPv3 levels behind real USM signing/encryption, and the pythonic wrapper); Hypothesis adds arbitrary Integer32 "
+    "statuses. Oracle: the RFC 3416 status table written out in the check selects the exception class, error_status "
+    "and offending_oid (binding[index-1] or empty), and a marker value carried by the error response must never "
+    "reach the caller.",
+    "Trusts lib/vagent.py's framing of the scripted response; status 2 on a walk continuation may end the walk normally (documented).",
+    "exhaustive fault enumeration over the error-status matrix + Hypothesis for arbitrary statuses",
+    "DESIGN.md section 3, C08")
+
+
 def main():
     present = sorted(os.path.basename(p)[:3].upper()
                      for p in glob.glob(os.path.join(VERIF, "checks", "c[0-9][0-9]_*.py")))
